@@ -613,7 +613,7 @@ fn client_handler<State>(
             Ok(request) if request.method == Method::Options => {
                 let handler = get_handler(request, &subapps, &default_subapp);
 
-                match handler {
+                let mut response = match handler {
                     Some(handler) => {
                         let mut response = Response::empty(StatusCode::NoContent)
                             .with_header(HeaderType::Date, DateTime::now().to_string())
@@ -630,8 +630,30 @@ fn client_handler<State>(
 
                         response
                     }
-                    None => error_handler(StatusCode::NotFound),
-                }
+                    None => {
+                        // The connection may be kept alive after this response, so like any other response
+                        //   it needs its length, as well as the usual headers
+                        let response = error_handler(StatusCode::NotFound);
+                        let content_length = response.body.len().to_string();
+
+                        response
+                            .with_header(HeaderType::Date, DateTime::now().to_string())
+                            .with_header(HeaderType::Server, "Humphrey")
+                            .with_header(
+                                HeaderType::Connection,
+                                match keep_alive {
+                                    true => "Keep-Alive",
+                                    false => "Close",
+                                },
+                            )
+                            .with_header(HeaderType::ContentLength, content_length)
+                    }
+                };
+
+                // Set HTTP version
+                response.version = request.version.clone();
+
+                response
             }
             Ok(request) => {
                 let handler = get_handler(request, &subapps, &default_subapp);
